@@ -589,6 +589,14 @@ fn match_with_rule<'src>(
                 }
             }
 
+            asm::RulePatternPart::ExactGlued(c) =>
+            {
+                if !walker.maybe_expect_char_glued(*c)
+                {
+                    return vec![];
+                }
+            }
+
             asm::RulePatternPart::Whitespace =>
             {
                 if !walker.is_over() &&
